@@ -232,17 +232,16 @@ class UAIReader(object):
             ]
             if isinstance(function_variables, int):
                 function_variables = [function_variables]
+            values = self.grammar.parseString(self.network)[
+                "fun_values_" + str(function)
+            ]
+            if isinstance(values, str):
+                values = [values]
             if self.network_type == "BAYES":
                 child_var = "var_" + str(function_variables[-1])
-                values = self.grammar.parseString(self.network)[
-                    "fun_values_" + str(function)
-                ]
                 tables.append((child_var, list(values)))
             elif self.network_type == "MARKOV":
                 function_variables = ["var_" + str(var) for var in function_variables]
-                values = self.grammar.parseString(self.network)[
-                    "fun_values_" + str(function)
-                ]
                 tables.append((function_variables, list(values)))
         return tables
 
